@@ -456,3 +456,48 @@ mod tests {
         assert!(r.is_err(), "{:?}", r);
     }
 }
+
+// ---- code run while a thread is being torn down ---------------------------------------------------
+
+/// Runs `body` inside the destructor of a thread-local value while its thread exits, after
+/// `prelude` ran on that thread: thread-locals the library creates during `prelude` are registered
+/// later than the guard, so they are already destroyed when `body` runs (destructors run in
+/// reverse order of registration).  A diff called from a `Drop` at thread exit is ordinary use.
+pub fn at_thread_exit<P, B>(prelude: P, body: B) -> Result<(), String>
+where
+    P: FnOnce() + Send + 'static,
+    B: FnOnce() -> Result<(), String> + Send + 'static,
+{
+    use std::sync::{Arc, Mutex};
+    struct Guard(Option<Box<dyn FnOnce() + Send>>);
+    impl Drop for Guard {
+        fn drop(&mut self) {
+            if let Some(f) = self.0.take() {
+                f()
+            }
+        }
+    }
+    thread_local! {
+        static GUARD: std::cell::RefCell<Option<Guard>> = const { std::cell::RefCell::new(None) };
+    }
+    let out: Arc<Mutex<Option<Result<(), String>>>> = Arc::new(Mutex::new(None));
+    let out2 = out.clone();
+    let h = std::thread::Builder::new()
+        .stack_size(16 << 20)
+        .spawn(move || {
+            crate::instr::disarm_all();
+            GUARD.with(|g| {
+                *g.borrow_mut() = Some(Guard(Some(Box::new(move || {
+                    // a panic must not leave a destructor
+                    let r = std::panic::catch_unwind(std::panic::AssertUnwindSafe(body))
+                        .unwrap_or_else(|_| Err("panic while the thread was being torn down".to_string()));
+                    *out2.lock().unwrap() = Some(r);
+                }))));
+            });
+            prelude();
+        })
+        .map_err(|e| format!("cannot spawn: {}", e))?;
+    h.join().map_err(|_| "the thread panicked".to_string())?;
+    let r = out.lock().unwrap().take();
+    r.unwrap_or_else(|| Err("the thread-exit body did not run".to_string()))
+}
